@@ -32,6 +32,7 @@ class Submodule(Module):
         super().__init__(file_ast, line_number, name)
         self.ancestor_name = ancestor_name
         self.ancestor_obj = None
+        self.inherit_version = None
 
     def get_type(self, no_link=False):
         return SUBMODULE_TYPE_ID
@@ -52,8 +53,16 @@ class Submodule(Module):
             return
         # The parent may have been renamed or removed since the last time
         self.ancestor_obj = None
+        self.inherit_version = inherit_version
         if self.ancestor_name in obj_tree:
             ancestor = obj_tree[self.ancestor_name][0]
+            # The chain above the parent has to be in place as well: the parent
+            # may live in a file that is linked after this one
+            if (
+                isinstance(ancestor, Submodule)
+                and ancestor.inherit_version != inherit_version
+            ):
+                ancestor.resolve_inherit(obj_tree, inherit_version)
             # A submodule cannot be its own ancestor (directly or through other
             # submodules): get_ancestors follows ancestor_obj recursively
             obj = ancestor
